@@ -181,3 +181,13 @@ Proof.
   split; [exact He|]. subst res. cbn [j_rows].
   apply join_rows_expected; [exact Hm|]. exact (pair_enum_range a rgeoms ps He).
 Qed.
+
+Lemma rows_exact_h : forall mrg cand h ls rs lm rm a rgeoms res,
+  contracts mrg cand a rgeoms ->
+  sjoin mrg cand h ls rs lm rm a rgeoms = Some (inr res) ->
+  exists ps, pair_enum a rgeoms ps /\
+             Permutation (j_rows res) (expected_rows h (fa_len a) (List.length rgeoms) ps).
+Proof.
+  intros mrg cand h ls rs lm rm a rgeoms res [H1 [H2 [H3 H4]]].
+  now apply sjoin_rows_exact.
+Qed.
